@@ -813,6 +813,17 @@ theorem writeThrough_cache_invisible_without_discards (evs₁ evs₂ : List (Ev 
 /-- obligation over the regenerated read / write paths of the keepers: no step reads or writes process memory -/
 theorem reader_programs_memory_free : readerProgs.all readerCovered = true := by decide
 
+/-- the two entry points through which block execution consults the switch parameters — `GetDisabledMsgs` (ante
+`DisableMsgDecorator`) and `CheckDisabledPrecompiles` (`Contract.Run` of the crosschain and staking precompiles) — are in the
+regenerated list, reach `GetSwitchParams` by a call within the keeper, and everything they call within the keeper (to depth 4) is
+in the list and free of process-memory steps -/
+theorem switch_entry_points_closed :
+    ((readerOf "x/gov/keeper" "Keeper.GetDisabledMsgs").map (callsClosed 4)) = some true ∧
+    ((readerOf "x/gov/keeper" "Keeper.CheckDisabledPrecompiles").map (callsClosed 4)) = some true ∧
+    ((readerOf "x/gov/keeper" "Keeper.GetDisabledMsgs").map (fun r => r.steps.any (fun s => s.kind == "call" && s.arg == "GetSwitchParams"))) = some true ∧
+    ((readerOf "x/gov/keeper" "Keeper.CheckDisabledPrecompiles").map (fun r => r.steps.any (fun s => s.kind == "call" && s.arg == "GetSwitchParams"))) = some true := by
+  decide
+
 /-- the archive-node theorem: state and delivered outputs depend on the block history only — not on restarts, state syncs,
 served executions at the latest height or reads at ANY older height — whenever an invariant relating memory and the LATEST state
 is established by construction for every state, kept by delivered transactions with the new state, kept with the latest state by
